@@ -475,6 +475,10 @@ def oracle(ctx):
             if got != "ok":
                 ctx.violation("default=None: %s" % got, {"text": t, "default": None})
         scaling(ctx, 0.06 if not ctx.budget(0, 1) else 0.6)
+        # the two-digit-year pivot the model is given comes from the process clock (review3b F8): a wrong pivot in
+        # parserinfo.__init__ is reported with a failing input
+        L.set_tz("UTC")
+        L.pivot_oracle(ctx)
     finally:
         L.set_tz(prev)
     ctx.hist["max_call_wall_ms"] = round(worst[0] * 1000, 3)
